@@ -77,6 +77,11 @@ Theorem C19_tx_hash_single_field : forall (H : bytes -> bytes) f t1 t2,
 Proof. exact tx_hash_single_field. Qed.
 Print Assumptions C19_tx_hash_single_field.
 
+Theorem C19_tx_input_not_injective_refuted :
+  exists t1 t2, t1 <> t2 /\ tx_hash_input t1 = tx_hash_input t2.
+Proof. exact tx_input_not_injective_refuted. Qed.
+Print Assumptions C19_tx_input_not_injective_refuted.
+
 Theorem C19_tx_sign_covers_all_but_sign : forall f t1 t2,
   In f tx_struct_fields -> f <> "Sign" -> tx_wf t1 -> tx_wf t2 ->
   agree_except txbody tget f t1 t2 -> tget f t1 <> tget f t2 ->
